@@ -124,6 +124,28 @@ def run(ctx):
             for m, s in [(0, 0), (1, 0), (2, 0), (3, rng.randrange(1 << 20)), (3, rng.randrange(1 << 20))]:
                 if (m in (1, 2)) and len(d) > 20000: continue
                 elines.append('enc %d %d %d %d %s %s' % (k, cfg, m, s, fs, d.hex() or '-')); emeta.append(((k, cfg, fs, id(d)), m, s, d))
+    # low-entropy data with long repeats (long matches end beyond nice_len; the optimiser works in 4096-position windows):
+    # many different slicings of the same input through normal-mode encoders
+    def long_repeats(n):
+        out = bytearray(xzgen.gen_runs(rng, 600))
+        while len(out) < n:
+            if rng.random() < 0.5:
+                src = rng.randrange(len(out)); l = rng.choice([100, 200, 273, 300, 500]); out += (out[src:] + out)[:l]
+            else: out += xzgen.gen_runs(rng, rng.randrange(5, 80))
+        return bytes(out[:n])
+    def junk_with_far_repeats(n):
+        # 4-symbol noise (short matches only: the optimal parser runs to its full horizon) with a 300-byte pattern
+        # repeated about one horizon (4096 positions) after the end of the previous long match
+        out = bytearray(rng.choice(b'acgt') for _ in range(n)); pat = bytes(65 + rng.randrange(26) for _ in range(300))
+        p = 300; k = 0
+        while p + 300 <= n:
+            out[p:p + 300] = pat; p = p + 273 + rng.choice([3950, 3900, 4000, 4096 - 273]) + 20 * k; k += 1
+        return bytes(out)
+    for _ in range(2 if ctx.quick() else 20):
+        d = long_repeats(rng.choice([6000, 9000, 13000])) if _ % 2 else junk_with_far_repeats(rng.choice([14000, 19000]))
+        for (k, cfg, fs) in [(0, 6 | (1 << 8), '-'), (4, 1 << 8, 'lzma2:dict=64KiB,mode=normal,mf=bt4,nice=%d' % rng.choice([32, 64, 128])), (3, 0, 'lzma2:dict=64KiB,mode=normal,mf=hc4,nice=48'), (2, 6, '-')]:
+            for m, s in [(0, 0), (1, 0)] + [(3, rng.randrange(1 << 20)) for _k in range(6 if ctx.quick() else 25)]:
+                elines.append('enc %d %d %d %d %s %s' % (k, cfg, m, s, fs, d.hex())); emeta.append(((k, cfg, fs, id(d)), m, s, d))
     # threaded encoder: same block size, different thread counts / timeouts / slicings must give the same bytes
     for d in datas:
         if len(d) < 100: continue
